@@ -333,7 +333,10 @@ struct Parser {
     std::string tmp((const char*)p + s, i - s);
     errno = 0;
     double d = std::strtod(tmp.c_str(), nullptr);
-    if (std::isinf(d)) {
+    // infinity is recognised by its bit pattern: the harness is also compiled with -ffast-math, where isinf() folds to false
+    uint64_t dbits;
+    std::memcpy(&dbits, &d, 8);
+    if ((dbits << 1) == 0xFFE0000000000000ull) {
       r->overflow_numbers++;
       if (!lenient) return fail(FInfinity, s);
     }
